@@ -56,7 +56,18 @@ Definition pf_kernel_call (sections pads h : Z) : M unit := dmma (sections + pad
 (* the same call with the length of y_truncated derived from the source (pf_y_len): np.empty(sections)
    padded by [left_pad, right_pad], each 0 or 1 *)
 Definition pf_kernel_call2 (sections left_pad right_pad h : Z) : M unit :=
-  dmma (pf_y_len sections left_pad right_pad) sections h.
+  dmma (pf_y_len sections left_pad right_pad) (pf_data_len sections) h.
+
+(* sections given as a SEQUENCE of k split indices: indices = np.unique(concatenate(([0], sections, [size])))
+   has uniq entries (2 <= uniq <= k + 2), y_truncated = np.empty(uniq - 1) plus the pads.  The data_len
+   argument expression of the kernel call is translated from the source: when it is (built from) an ndarray
+   (pf_seq_data_len_is_int = false) numba cannot type the call -- int64 vs array in `half_window > (data_len - 1) // 2`
+   -- and raises TypingError before any compiled code runs; when it is an integer expression the kernel runs
+   with that data_len. *)
+Definition pf_seq_kernel_call (k uniq size left_pad right_pad h : Z) : M unit :=
+  if pf_seq_data_len_is_int
+  then dmma (pf_seq_y_len k uniq left_pad right_pad) (pf_seq_data_len k uniq size) h
+  else ret tt.
 
 (* corner_cutting: _quadratic_bezier_spline(self.x, y, np.flatnonzero(mask)) *)
 Definition corner_cutting_call (n : Z) (indices : list Z) : M unit := bezier n n indices.
